@@ -630,6 +630,94 @@ def shard_history(shard):
 
 # --------------------------------------------------------------------------------------------
 
+# --------------------------------------------------------------------------------------------
+# forms: the same basis handed over in every argument form
+# --------------------------------------------------------------------------------------------
+# The class is a function of the SET of patterns: whether they arrive as a list, a tuple, a set, a
+# Basis object or a one-shot iterator (generator, iter(), map()), in whatever order and with
+# repetitions, through Av(...) or Av.from_iterable(...), the levels must be the reference levels.
+
+FORMS = ("list", "tuple", "iter", "generator", "map", "frozenset", "dup-list", "dup-iter", "basis-object")
+ENTRIES = ("Av", "from_iterable")
+
+
+def _in_form(objs, form):
+    if form == "list":
+        return list(objs)
+    if form == "tuple":
+        return tuple(objs)
+    if form == "iter":
+        return iter(list(objs))
+    if form == "generator":
+        return (o for o in objs)
+    if form == "map":
+        return map(lambda o: o, objs)
+    if form == "frozenset":
+        return frozenset(objs)
+    if form == "dup-list":
+        return list(objs) + list(objs)[:1]
+    if form == "dup-iter":
+        return iter(list(objs) + list(objs)[:1])
+    if form == "basis-object":
+        from permuta.perm_sets.basis import Basis, MeshBasis
+        return MeshBasis(*objs) if MeshBasis.is_mesh_basis(objs) else Basis(*objs)
+    raise ValueError(form)
+
+
+def check_form(part, descs, form, entry, N):
+    Av, Perm = _lib()
+    descs = [A.norm(d) for d in descs]
+    levels = ref_levels(descs, N)
+    case = {"basis": descs, "form": form, "entry": entry, "N": N}
+    try:
+        Av.clear_cache()
+        arg = _in_form([A.mk(d) for d in descs], form)
+        av = Av(arg) if entry == "Av" else Av.from_iterable(arg)
+        got_c = [av.count(n) for n in range(N + 1)]
+        got_l = [sorted(tuple(p) for p in av.of_length(n)) for n in range(N + 1)]
+    except Exception as exc:  # noqa
+        part.violation("forms", case, {"exception": repr(exc)})
+        return
+    exp_c = [len(lv) for lv in levels]
+    exp_l = [sorted(lv) for lv in levels]
+    if got_c != exp_c:
+        part.violation("forms", case, {"observer": "count", "expected": exp_c, "got": got_c})
+    elif got_l != exp_l:
+        n = next(i for i in range(N + 1) if got_l[i] != exp_l[i])
+        part.violation("forms", case, {"observer": "of_length(%d)" % n, "expected": exp_l[n],
+                                       "got": got_l[n]})
+
+
+def shard_forms(shard):
+    lists, N = shard
+    part = Partial()
+    for descs in lists:
+        levels = ref_levels(descs, N)
+        tot = sum(len(lv) for lv in levels)
+        for form in FORMS:
+            for entry in ENTRIES:
+                check_form(part, descs, form, entry, N)
+                part.add(1, 1 if 0 < tot < sum(_fact(n) for n in range(N + 1)) else 0)
+    return part
+
+
+def forms_pool(quick):
+    """Ordered lists: every order of 1..3 patterns from a small mixed pool (classical of length
+    1..3 and two of length 4, mesh, vincular, covincular, bivincular), so that a mesh-type pattern
+    stands first, in the middle and last."""
+    cl = [("c", p) for p in [(0,), (0, 1), (1, 0), (0, 1, 2), (0, 2, 1), (2, 1, 0), (1, 2, 0)]]
+    cl4 = [("c", (1, 3, 0, 2)), ("c", (3, 2, 1, 0))]
+    me = [("m", (1, 0), ((1, 1),)), ("m", (0, 2, 1), ((0, 0), (3, 3))), ("v", (0, 1), (1,)),
+          ("co", (1, 0), (1,)), ("b", (0, 1), (1,), (1,)), ("m", (0,), ((0, 0),))]
+    pool = cl + cl4 + me
+    out = [[d] for d in pool]
+    out += [list(t) for t in itertools.permutations(pool, 2)]
+    small = cl[1:6] + me[:4]
+    out += [list(t) for t in itertools.permutations(small if quick else pool[1:], 3)
+            if any(A.is_mesh(d) for d in t)]
+    return out
+
+
 def mesh_pool_small():
     """Pool for pairs: Mesh<=1 (all), length-2 shadings with <=1 or >=8 cells, all Biv/Vinc/Covinc of
     length <=1 and the single-requirement ones of length 2, classical S1..S3."""
@@ -723,6 +811,13 @@ def run(ctx, only=None):
         ctx.pmap(shard_mesh, shards)
         ctx.bounds["mesh"] = {"singles": len(singles), "pairs": len(pairs), "levels": NM}
         ctx.section("mesh", evaluations=ctx.evals - e0)
+    if want("forms"):
+        e0 = ctx.evals
+        lists = forms_pool(quick)
+        ctx.pmap(shard_forms, [(c, 4) for c in chunk(lists, 12)])
+        ctx.bounds["forms"] = {"ordered_lists": len(lists), "forms": list(FORMS),
+                               "entries": list(ENTRIES), "levels": 4}
+        ctx.section("forms", evaluations=ctx.evals - e0)
     if want("subclass"):
         e0 = ctx.evals
         pool = [[("c", p)] for n in (1, 2, 3) for p in R.perms(n)]
@@ -760,6 +855,8 @@ def replay(ctx, rec):
     sub, case = rec["sub"], rec["case"]
     if sub == "class":
         check_class(ctx, case["basis"], case["N"], case["variant"], in_upto=case["N"])
+    elif sub == "forms":
+        check_form(ctx, case["basis"], case["form"], case["entry"], case["N"])
     elif sub == "deep":
         part = shard_deep(([tuple(d[1]) for d in case["basis"]], case["N"], case["variant"]))
         for v in part.viols:
